@@ -77,8 +77,25 @@ RedSlots(r) == CASE r = "none" -> {}
                  [] r = "i_to" -> {BrSlot("i", k, "t") : k \in BrId}
                  [] r = "all_but_i" -> {x \in AllSlots : SlotMt(x) # "i"}
                  [] r = "all" -> AllSlots
-\* state of the model: s = [core, red, dup, ord]
+\* state of the model: s = [core, red, dup, ord, wv]
 Meas(s) == CoreSlots(s.core) \cup RedSlots(s.red)
+
+\* ---- rated winding voltages of the template's transformer (network level, not part of the measurement table) -----
+\* The per-unit system of the estimator is based on net.bus.vn_kv (ppc BASE_KV); a transformer whose rated winding
+\* voltage differs from the nominal voltage of the bus it is connected to (110/10.5 kV on a 10 kV bus, MATPOWER cases
+\* with off-nominal ratios) is an ordinary input.  Wind(w) = rated voltage of the hv / lv winding in per mille of the
+\* nominal voltage of the connected bus.  The winding voltage enters the branch model (ratio, impedance base) and must
+\* NOT enter the conversion of a measurement to per unit: current magnitudes measured at a transformer side are the
+\* measurements whose base (sn_mva / (sqrt(3) vn_kv of the BUS)) depends on a voltage level (ppc_conversion.py:428-440).
+WindClasses == {"rated", "hv_off", "lv_off", "both_off"}
+Wind(w) == CASE w = "rated" -> [hv |-> 1000, lv |-> 1000]
+             [] w = "hv_off" -> [hv |-> 1050, lv |-> 1000]
+             [] w = "lv_off" -> [hv |-> 1000, lv |-> 1050]
+             [] w = "both_off" -> [hv |-> 1025, lv |-> 1050]
+\* current-magnitude measurements at a transformer side
+TrafoI(m) == {x \in m : ~IsBusSlot(x) /\ SlotMt(x) = "i" /\ Branch[SlotBr(x)].et = "trafo"}
+\* ... at a side whose winding is off-nominal in level w
+OffNominalI(m, w) == {x \in TrafoI(m) : IF SlotEnd(x) = "f" THEN Wind(w).hv # 1000 ELSE Wind(w).lv # 1000}
 
 \* ---- the measurement table (net.measurement) built from a structure -----------------------------------------------
 \* a row = [slot, dup]; a duplicate row repeats the slot's exact value with TWICE the standard deviation
